@@ -298,9 +298,7 @@ PROPS = {
         "engines": [_eng("acct", 25000, 800000), _eng("", 10000, 300000)],
         "nontrivial": _eng_nontrivial, "rule": _ENG_RULE + "Profile `acct`: more setvar (+N, -N, assign, delete, macro keys/values), chains, multiMatch.",
         "modelled": _ENG_MODELLED, "assumptions": _ENG_ASSUME,
-        "open_statements": ["C09_sum as a closed arithmetic formula (value = old + N·matches) is not yet a theorem: it needs "
-                            "the Itoa/Atoi round-trip for the model's digit rendering; the per-match fold (C09_once_per_match) "
-                            "and single-step setvar lemmas are proved, the sums are compared by the correspondence"],
+        "open_statements": ["C09_sum is proved for literal non-negative operands (`+n`) below 2^63 via the Itoa/Atoi round trip (Proofs/Digits.lean); decrements, negative values and macro operands are covered by the per-match fold (C09_once_per_match) and compared by the correspondence"],
     },
     "C12": {
         "engines": [_eng("cache", 25000, 800000), {"name": "engrep", "quick": 1500, "thorough": 40000, "shards": 8}],
@@ -332,9 +330,7 @@ PROPS = {
         "modelled": _ENG_MODELLED, "assumptions": _ENG_ASSUME,
         "open_statements": ["a logging-phase rule with a disruptive action can still replace Interruption() after the "
                             "logging call (C02_final is stated for calls other than ProcessLogging; C02_logging_only_phase5 "
-                            "covers what ProcessLogging may evaluate)",
-                            "C02_first (the interruption is the one of the first completing disruptive rule) follows from "
-                            "C02_interrupted_phase_stops + the loop order but is not yet stated as one theorem"],
+                            "covers what ProcessLogging may evaluate)"],
     },
     "C08": {
         "engines": [_eng("flow", 25000, 800000), _eng("", 10000, 300000)],
